@@ -98,3 +98,8 @@ PROPS["C19"] = dict(level="exploration",
     units=[Unit("c19_cancel", "harness/c19_cancel.cpp", cfg="d17", max_size=120, pin=True, shards=8,
                 quick=(30, 400000), thorough=(480, 20000000))],
     assumptions=_DS_ASSUME)
+
+_C08U = Unit("c08_scope", "harness/c08_scope.cpp", cfg="d17", max_size=140, pin=True, shards=8,
+             quick=(35, 400000), thorough=(480, 20000000))
+PROPS["C08"] = dict(level="exploration", units=[_C08U], assumptions=_DS_ASSUME)
+PROPS["C09"] = dict(level="exploration", units=[_C08U], assumptions=_DS_ASSUME)
